@@ -482,6 +482,25 @@ func Event(format string, args ...interface{}) {
 	s.mu.Unlock()
 }
 
+// EventKey is Event with a separate fingerprint key: the event log gets the
+// full message, the event-order fingerprint only the key. Used where the
+// message carries a quantity that the code under test does not determine
+// (byte counts of error texts that embed heap addresses).
+func EventKey(key, format string, args ...interface{}) {
+	s := cur.Load()
+	if s == nil {
+		return
+	}
+	s.mu.Lock()
+	h := fnv.New64a()
+	h.Write([]byte(key))
+	s.efp = (s.efp ^ h.Sum64()) * 1099511628211
+	if s.cfg.Trace {
+		s.trace = append(s.trace, fmt.Sprintf(format, args...))
+	}
+	s.mu.Unlock()
+}
+
 // Tracing tells whether an event log is kept.
 func Tracing() bool {
 	s := cur.Load()
